@@ -17,6 +17,7 @@ type SpecFun struct {
 	Body    *Term // nil for declared (uninterpreted) functions
 	Rec     bool
 	Always  bool // always revealed
+	Builtin bool // constructor / selector of a declared datatype: never declared or defined in a script
 	Ground  bool // applications to literal arguments are computed by the generator (tables)
 	File    string
 	ArgS    []*Sort
@@ -43,6 +44,9 @@ type SpecLib struct {
 	Consts map[string]*Term
 	Sorts  map[string]bool
 	Order  []string // lemma order
+	Datatypes     map[string]string // datatype name -> constructor list (SMT-LIB text)
+	DatatypeOrder []string
+	CtorSels      map[string][]string // constructor -> selector names
 }
 
 func NewSpecLib() *SpecLib {
@@ -105,6 +109,34 @@ func (lib *SpecLib) loadCmd(x *SX, file string) error {
 	switch x.Head() {
 	case "declare-sort":
 		lib.Sorts[x.List[1].Atom] = true
+	case "declare-datatype":
+		// (declare-datatype Name ((ctor (sel Sort) ...) ...)): an algebraic datatype; constructors and selectors become
+		// built-in functions, the tester of constructor c is written ((_ is c) x)
+		name := x.List[1].Atom
+		if lib.Datatypes == nil {
+			lib.Datatypes = map[string]string{}
+		}
+		lib.Datatypes[name] = x.List[2].String()
+		lib.DatatypeOrder = append(lib.DatatypeOrder, name)
+		dt := SNamed(name)
+		for _, c := range x.List[2].List {
+			cn := c.List[0].Atom
+			var as []*Sort
+			if lib.CtorSels == nil {
+				lib.CtorSels = map[string][]string{}
+			}
+			lib.CtorSels[cn] = []string{}
+			for _, f := range c.List[1:] {
+				fs, err := SortFromSX(f.List[1])
+				if err != nil {
+					return err
+				}
+				as = append(as, fs)
+				lib.CtorSels[cn] = append(lib.CtorSels[cn], f.List[0].Atom)
+				lib.Funs[f.List[0].Atom] = &SpecFun{Name: f.List[0].Atom, ArgS: []*Sort{dt}, Res: fs, File: file, Builtin: true}
+			}
+			lib.Funs[cn] = &SpecFun{Name: cn, ArgS: as, Res: dt, File: file, Builtin: true}
+		}
 	case "declare-const":
 		s, err := SortFromSX(x.List[2])
 		if err != nil {
@@ -357,6 +389,8 @@ func (lib *SpecLib) TermFromSX(x *SX, sc *sxScope) (*Term, error) {
 				var k int
 				fmt.Sscanf(hx.List[2].Atom, "%d", &k)
 				return App(op, SBV(k), args...), nil
+			case "is":
+				return App(op, SBool, args...), nil
 			}
 			return nil, fmt.Errorf("unsupported indexed op %s", op)
 		}
